@@ -3,7 +3,7 @@
    andb/orb to && / ||.  N, positive, nat, Z stay the extracted inductive types. *)
 Require Extraction.
 Require Import ExtrOcamlBasic.
-From PPP Require Import Base.Bytes Model.V2 Model.Builder Spec.V2Wire Spec.TlvWalk Spec.Encoder.
+From PPP Require Import Base.Bytes Std.Utf8 Std.Text Std.Num Std.Ip Model.V2 Model.Builder Model.V1 Model.Auto Spec.V2Wire Spec.TlvWalk Spec.Encoder.
 Extraction Language OCaml.
 Extraction "model.ml"
   lenN
@@ -11,6 +11,9 @@ Extraction "model.ml"
   h_length h_len h_is_empty h_address_family h_address_bytes h_tlv_bytes h_as_bytes h_to_owned
   addresses_len addresses_is_empty family_to_u16 version_or_command protocol_or_family family_code
   is_incomplete2 is_complete2
+  utf8_valid parse_u16 parse_ipv4 parse_ipv6 fmt_dec fmt_ipv4 fmt_ipv6
+  p1 p1s addresses_from_str header_from_str h1_protocol addrs_protocol h1_addresses_str h1_to_string h1_to_owned fmt1
+  is_incomplete1 is_incomplete1s pa is_incomplete_a is_complete_a
   write_to to_bytes brun z_of_digits item_ok_b item_payload_b
   enc_payload oversize expected_output body in_force payloads wire
   v2_spec v2_possible spec_address_bytes spec_tlv_section walk.
